@@ -17,6 +17,7 @@ InitModel(cfg) ==
     [ policy   |-> cfg.target.policy,
       cfgsize  |-> Opt(cfg.driver, "size", 4000),
       extended |-> Opt(cfg.driver, "extended", 1) = 1,
+      kind     |-> cfg.driver.kind,
       ident    |-> Opt(cfg.target, "identity", [none |-> 1]),
       clock    |-> Opt(cfg.target, "clock_b", Zeros(8)),
       hasclock |-> Has(cfg.target, "clock_b"),
@@ -122,7 +123,9 @@ TxStep(m, ev) ==
               IN Good([m EXCEPT !.pend = [kind |-> "reply", bytes |-> Header(CmdListId, Len(body), pf.handle, Zero4, pf.ctx) \o body, tell |-> [k |-> "none"]],
                                 !.last = [k |-> "listidentity"]]))
     ELSE \* rr / unit
-    IF m.dHandle = <<>> \/ pf.handle # m.dHandle THEN Bad(m, IF pf.handle = Zero4 THEN "C10:no-session" ELSE "C11:handle")
+    IF pf.kind = "rr" /\ m.dHandle = <<>> /\ pf.handle = Zero4 THEN                    \* UCMM request without a session: the target refuses it
+        Good([m EXCEPT !.pend = [kind |-> "reply", bytes |-> ErrorReply(CmdRRData, pf.handle, pf.ctx, 100), tell |-> [k |-> "none"]]])
+    ELSE IF m.dHandle = <<>> \/ pf.handle # m.dHandle THEN Bad(m, IF pf.handle = Zero4 THEN "C10:no-session" ELSE "C11:handle")
     ELSE IF pf.handle \notin m.sessions THEN Bad(m, "C10:no-session")
     ELSE IF pf.kind = "rr" THEN
         LET q == MRParse(pf.item) IN
@@ -240,7 +243,7 @@ RetStep(m, ev) ==
     ELSE IF api \in {"close", "exit"} /\ ~m.closeFault /\ m.alive /\ ev.faulted = 0
             /\ (m.sessions # {} \/ \E i \in 1..Len(m.conns) : m.conns[i].cid \in m.dConns) THEN Bad(m, "C10:target-dirty")
     ELSE IF api \in {"open", "enter"} /\ m.policy # "SessionRefused" /\ ev.faulted = 0 /\ m.alive
-            /\ ~(ev.outcome = "value" /\ ev.connected = 1) /\ ~LxOpenMayFail(m.lx) THEN Bad(m, IF m.closedOnce THEN "C10:reopen" ELSE "C10:open-failed")
+            /\ ~(ev.outcome = "value" /\ ev.connected = 1) /\ ~(m.kind = "logix" /\ m.policy = "AllRefused") THEN Bad(m, IF m.closedOnce THEN "C10:reopen" ELSE "C10:open-failed")
     ELSE IF api = "generic" THEN
         LET it == m.call.intent  tg == ev.result.tags IN
         IF ev.outcome # "value" THEN (IF m.nIntent = 0 \/ ev.faulted = 1 \/ m.last.k = "none" THEN Good(m) ELSE Bad(m, "C13:exception-on-reply"))
@@ -300,7 +303,8 @@ Step(m, ev) ==
            ELSE Good([m EXCEPT !.pend = NoPend])
       [] ev.k = "ret" ->
            LET r == RetStep(m, ev) IN
-           IF r.fail # "" THEN r ELSE Good([r.m EXCEPT !.closedOnce = @ \/ ev.api \in {"close", "exit"}, !.inClose = FALSE])
+           IF r.fail # "" THEN r ELSE Good([r.m EXCEPT !.closedOnce = @ \/ ev.api \in {"close", "exit"}, !.inClose = FALSE,
+                                                      !.dConns = IF ev.api \in {"close", "exit"} THEN {} ELSE @])
       [] OTHER -> Bad(m, "MACHINERY:unknown-event")
 
 (* ------------------------------------------------------------------------------------------------------------ *)
